@@ -168,12 +168,12 @@ func Run(t *testing.T, stores []config.Store, faults []string, opt Options) (res
 		}
 		start(cc, "C")
 		advance(opt.Horizon - opt.LateStart)
-		// two minute ticks of the managers after the last fault.
+		// three minute ticks of the managers after the last fault (one more than the recovery needs).
 		fmu.Lock()
 		lf := lastFault
 		fmu.Unlock()
 		if !lf.IsZero() {
-			if d := lf.Add(125 * time.Second).Sub(time.Now()); d > 0 {
+			if d := lf.Add(185 * time.Second).Sub(time.Now()); d > 0 {
 				advance(d)
 			}
 		}
@@ -185,7 +185,7 @@ func Run(t *testing.T, stores []config.Store, faults []string, opt Options) (res
 				lx := pr.x.Peering().GetLink(pr.y.Identity().IP)
 				ly := pr.y.Peering().GetLink(pr.x.Identity().IP)
 				if lx == nil || ly == nil {
-					problem("vnet/not-peered", fmt.Sprintf("%s: two minute ticks after the last fault the routers have no link on both sides (listener side has link: %v, dialling side has link: %v; A listens: %v, times A's address was bound: %d)",
+					problem("vnet/not-peered", fmt.Sprintf("%s: three minute ticks after the last fault the routers have no link on both sides (listener side has link: %v, dialling side has link: %v; A listens: %v, times A's address was bound: %d)",
 						pr.name, lx != nil, ly != nil, n.Listening(opt.ListenAddr), n.Listens[opt.ListenAddr]))
 				}
 			}
